@@ -27,6 +27,7 @@ Inductive api :=
 | AGoto (line col : Z)
 | AMove (downward rightward : Z)
 | APrint (str : list Z)                 (* the C string: its bytes before the NUL *)
+| APrintf (str : list Z)                (* tickit_term_printf / vprintf whose FORMATTED RESULT is str *)
 | APrintn (str : list Z) (len : Z)      (* the NUL-terminated buffer's bytes, and the length given *)
 | AErasech (count : Z) (moveend : maybe)
 | AClear
@@ -67,6 +68,12 @@ Definition api_step (t : term) (a : api) : option (term * list token * option Z)
   | AMove d r => Some (t, xt_move_rel d r, None)
   | APrint str =>
       (* print(driver, str, strlen(str)) *)
+      match drv_print str (Z.of_nat (length str)) with
+      | Some ts => Some (t, ts, None)
+      | None => None
+      end
+  | APrintf str =>
+      (* len = vsnprintf(NULL, 0, ...); buf = tmpbuffer(len + 1); vsnprintf(buf, ...); print(driver, buf, len) *)
       match drv_print str (Z.of_nat (length str)) with
       | Some ts => Some (t, ts, None)
       | None => None
